@@ -29,6 +29,18 @@ func c05GenThreadingSeq(r *verifh.Rng) []verifh.Section {
 		secs = append(secs, verifh.Section{Cfg: fmt.Sprintf("kind=runner mode=seq n=%d", n),
 			Ops: c5.SeqOps(r, n, r.Range(10, 50), true, c5.FinishOp(r))})
 	}
+	// … with Wait calls in between (nothing running: returns; tasks running: blocks until the last has ended)
+	for i := 0; i < verifh.Scale(12, 150); i++ {
+		n := c5.PickN(r)
+		var ops []string
+		for _, o := range c5.SeqOps(r, n, r.Range(8, 30), true, c5.FinishOp(r)) {
+			ops = append(ops, o)
+			if r.Chance(1, 5) {
+				ops = append(ops, "wait")
+			}
+		}
+		secs = append(secs, verifh.Section{Cfg: fmt.Sprintf("kind=runner mode=seq n=%d", n), Ops: append(ops, "wait", "probe")})
+	}
 	return secs
 }
 
@@ -162,6 +174,43 @@ func c05StartRunner(cfg verifh.Cfg) (func(op []string) string, func()) {
 			return "blocked"
 		case "finish":
 			return finish(len(op) > 1 && op[1] == "panic")
+		case "wait":
+			// TaskRunner.Wait: returns at once when nothing is running (also after refused
+			// ScheduleImmediately calls); blocks while tasks run and returns when the last one has ended
+			done := make(chan struct{})
+			go func() { rp.Wait(); close(done) }()
+			if len(running) == 0 {
+				select {
+				case <-done:
+					return "returns"
+				case <-time.After(3 * time.Second):
+					return "stuck"
+				}
+			}
+			select {
+			case <-done:
+				return fmt.Sprintf("returns-early running=%d", len(running))
+			case <-time.After(time.Millisecond):
+			}
+			for len(running) > 1 {
+				if res := finish(false); res != "ok" {
+					return res
+				}
+				select {
+				case <-done:
+					return fmt.Sprintf("returns-early running=%d", len(running))
+				default:
+				}
+			}
+			if res := finish(false); res != "ok" {
+				return res
+			}
+			select {
+			case <-done:
+				return "blocked"
+			case <-time.After(3 * time.Second):
+				return "stuck"
+			}
 		case "probe":
 			return fmt.Sprintf("free=%d", probe())
 		case "run":
